@@ -82,12 +82,41 @@ def _deriv_judge(args):
             pass
 
 
+def _const_subtrees(t):
+    """maximal symbol-free sub-trees (dump form) that are not plain numbers"""
+    import json
+    if not isinstance(t, list) or not t:
+        return
+    if t[0] in ('Integer', 'Rational', 'Complex', 'RealDouble', 'ComplexDouble', 'Symbol', 'Constant'):
+        return
+    if '"Symbol"' not in json.dumps(t) and '"Dummy"' not in json.dumps(t):
+        yield t
+        return
+    for a in t[1:]:
+        if isinstance(a, list):
+            if a and a[0] == 'T':
+                yield from _const_subtrees(a[1])
+                yield from _const_subtrees(a[2])
+            else:
+                yield from _const_subtrees(a)
+
+
 def _deriv_judge_inner(args):
     cid, te, var, tr, real, seed = args
     rng = random.Random(seed)
     names = sorted(oracle_e.symbols_of(te) | oracle_e.symbols_of(tr) | {var})
     bad = None
     good = 0
+    # a symbol-free sub-expression of astronomical magnitude (e.g. (-3)**cosh(7) ~ 1e261 as an argument of beta) makes the 60-digit
+    # reference lose every digit to cancellation, consistently at every precision tried below: not judged
+    try:
+        with mp.workdps(60):
+            for sub in _const_subtrees(te):
+                v = oracle_e.Evaluator({}).ev(sub)
+                if oracle_e.kind_of(v) == 'finite' and not isinstance(v, bool) and abs(v) > mpf(10) ** 40:
+                    return cid, 'inconclusive', 'astronomical constant inside the expression'
+    except Exception:
+        pass
     try:
         for attempt in range(8):
             env = {n: oracle_e.rand_point(rng, 'real' if real else 'complex') for n in names}
